@@ -86,6 +86,10 @@ class Module(object):
         self.structs = list(structs)
         self.imports = list(imports)          # [(alias, Module)]
         self.name = name
+        for st in self.structs:
+            st.module = self
+        for en in self.enums:
+            en.module = self
 
     def enum(self, name):
         for e in self.enums:
